@@ -2,11 +2,12 @@ pub mod cache;
 pub mod chunker;
 pub mod flight;
 pub mod session;
+pub mod shard;
 
 use crate::core::Engine;
 
 pub fn all() -> Vec<&'static dyn Engine> {
-    vec![&chunker::ChunkerEngine, &session::SessionEngine, &flight::FlightEngine, &cache::CacheEngine]
+    vec![&chunker::ChunkerEngine, &session::SessionEngine, &flight::FlightEngine, &cache::CacheEngine, &shard::ShardEngine]
 }
 
 pub fn for_property(id: &str) -> Option<&'static dyn Engine> {
